@@ -41,3 +41,52 @@ Theorem factory_once_refuted : forall data,
   entries_for (ls_log s) n = 2%nat /\ overlapping (ls_log s) = true.
 Proof. intros data. vm_compute. split; reflexivity. Qed.
 Print Assumptions factory_once_refuted.
+
+From CCTZ Require Import FixedImpl ZoneLoad LoaderSM SourceNames SourceCacheProofs.
+(* time_zone::Impl::LoadTimeZone AS CLANG READS IT NOW (SourceNames.v): read as a sequential function over an explicit
+   cache, with `world k` standing for what other threads did to the map before the k-th lock acquisition and every
+   lock/unlock recorded in a trace (the translator refuses the function if time_zone_map is touched outside a lock_guard,
+   is thread_local, or is not one process-wide pointer).  The source-derived function IS the S1 | S2 | S3 structure the
+   schedule model (LoaderSM.v) assumes: UTC names take no lock; a cache hit answers from the first critical section;
+   otherwise the impl is constructed OUTSIDE the lock and the second critical section is exactly LoaderSM.publish
+   (insert-if-absent, return the map's entry). *)
+Theorem c20_src_load_time_zone_tie : forall (world : nat -> option imap -> option imap) (new_impl : list Z -> nat * bool) m0 tr0 n tz0 c1 c2,
+  cache_rep (world 0%nat m0) c1 ->
+  cache_rep (world 1%nat (world 0%nat m0)) c2 ->
+  fst (new_impl n) <> utc_id ->
+  sn_LoadTimeZone world new_impl m0 tr0 n tz0 =
+  match FixedOffsetFromName n with
+  | Some 0 => OK (true, Some utc_id, m0, tr0)
+  | _ =>
+    match cache_find c1 n with
+    | Some id => OK (negb (Nat.eqb id utc_id), Some id, world 0%nat m0, tr0 ++ [LkLock; LkUnlock])
+    | None =>
+      let '(r, p, c3) := s3_result c2 n (fst (new_impl n)) (snd (new_impl n)) in
+      OK (r, p, Some (imap_of c3), tr0 ++ [LkLock; LkUnlock; LkLock; LkUnlock])
+    end
+  end.
+Proof. exact SourceCacheProofs.sn_LoadTimeZone_tie. Qed.
+Print Assumptions c20_src_load_time_zone_tie.
+Theorem c20_src_load_time_zone_publish : forall (world : nat -> option imap -> option imap) (new_impl : list Z -> nat * bool) m0 tr0 n tz0 c1 s2 t log,
+  cache_rep (world 0%nat m0) c1 ->
+  cache_rep (world 1%nat (world 0%nat m0)) (ls_cache s2) ->
+  fst (new_impl n) = ls_next s2 -> ls_next s2 <> utc_id ->
+  FixedOffsetFromName n <> Some 0 -> cache_find c1 n = None ->
+  let s3 := publish s2 t n (snd (new_impl n)) log in
+  exists r id,
+    sn_LoadTimeZone world new_impl m0 tr0 n tz0
+      = OK (r, Some id, Some (imap_of (ls_cache s3)), tr0 ++ [LkLock; LkUnlock; LkLock; LkUnlock])
+    /\ ls_results s3 = ls_results s2 ++ [(t, n, r, id)].
+Proof. exact SourceCacheProofs.sn_LoadTimeZone_publish. Qed.
+Print Assumptions c20_src_load_time_zone_publish.
+Theorem c20_src_load_time_zone_serial : forall (data : name -> option (list Z)) (new_impl : list Z -> nat * bool) m0 tr0 n tz0 s t,
+  (forall k, get_thr (ls_thr s) t <> Some (TInFactory k)) ->
+  cache_rep m0 (ls_cache s) ->
+  fst (new_impl n) = ls_next s -> ls_next s <> utc_id ->
+  snd (new_impl n) = construct_ok data n ->
+  let s' := step data (step data s (Start t n)) (Release t) in
+  exists r id m' tr',
+    sn_LoadTimeZone (fun _ m => m) new_impl m0 tr0 n tz0 = OK (r, Some id, m', tr')
+    /\ cache_rep m' (ls_cache s') /\ ls_results s' = ls_results s ++ [(t, n, r, id)].
+Proof. exact SourceCacheProofs.sn_LoadTimeZone_serial. Qed.
+Print Assumptions c20_src_load_time_zone_serial.
